@@ -271,13 +271,16 @@ Proof. destruct k; (left; reflexivity) || (right; discriminate). Qed.
 Lemma kind_eq_dec_K_D (k : kind) : {k = K_D} + {k <> K_D}.
 Proof. destruct k; (left; reflexivity) || (right; discriminate). Qed.
 
+Lemma vals_eq k : vals k = vals_spec k.
+Proof. destruct k; vm_compute; reflexivity. Qed.
+
 Lemma render_in_tvals l c t : civil_ok l c -> In (render_tok t c) (tvals t).
 Proof.
   intros Hc. destruct t as [k i|b|n]; cbn [render_tok tvals]; [|left; reflexivity|left; reflexivity].
   destruct (kind_eq_dec_KZ3 k) as [->|Hk].
   - cbn. destruct Hc as (_ & _ & _ & _ & _ & _ & _ & Hz & _). exact Hz.
   - assert (E : render_kind k c = rv k (cv k c)) by (destruct k; try reflexivity; congruence).
-    assert (V : vals k = map (rv k) (zrange (vlo k) (vn k))) by (destruct k; try reflexivity; congruence).
+    assert (V : vals k = map (rv k) (zrange (vlo k) (vn k))) by (rewrite vals_eq; destruct k; try reflexivity; congruence).
     rewrite E, V. apply in_map. apply in_zrange. eapply cv_range; eassumption.
 Qed.
 
